@@ -9,6 +9,7 @@ import (
 	"crypto/sha256"
 	"fmt"
 	"math/rand"
+	"sort"
 
 	enc "github.com/named-data/ndnd/std/encoding"
 	"github.com/named-data/ndnd/std/ndn"
@@ -85,6 +86,10 @@ func c12Run(c *h.Ctx) {
 		sr := rand.New(rand.NewSource(r.Int63()))
 		br := rand.New(rand.NewSource(r.Int63()))
 		boundary := r.Intn(3) == 0
+		if cs.Kind == "interest" && cs.Payload != nil && br.Intn(8) == 0 {
+			cs.Payload = [][]byte{{}} // zero-length ApplicationParameters are parameters too
+			boundary = false
+		}
 		if !c.Case(id) {
 			continue
 		}
@@ -341,14 +346,27 @@ func c12One(c *h.Ctx, id string, cs *pkt.Case, r *rand.Rand) {
 					other = x[:]
 				}
 				copy(mut[lay.DigestComp.ValOff:lay.DigestComp.End], other)
-				var derr error
-				pi := h.Guard(func() { _, _, derr = pkt.DecodeSig("interest", enc.NewBufferReader(mut)) })
-				if pi != nil {
-					c.Violation("C12:panic:digest:"+pi.Frame+":"+pi.Class, id, "decoder panicked: "+pi.Value, desc)
-				} else if derr == nil {
-					c.Violation("C12:wrong-digest-accepted", id, "Interest whose parameters digest was replaced still decodes", desc)
+				// both reader implementations: contiguous, and segmented at PRNG offsets
+				for _, seg := range []bool{false, true} {
+					var derr error
+					var rd enc.ParseReader = enc.NewBufferReader(append([]byte{}, mut...))
+					if seg {
+						cuts := []int{1 + r.Intn(len(mut)-1), 1 + r.Intn(len(mut)-1), lay.ParamsNode.ValOff, lay.ParamsNode.Off}
+						sort.Ints(cuts)
+						rd = enc.NewWireReader(pkt.Segment(mut, cuts))
+					}
+					pi := h.Guard(func() { _, _, derr = pkt.DecodeSig("interest", rd) })
+					if pi != nil {
+						c.Violation("C12:panic:digest:"+pi.Frame+":"+pi.Class, id, "decoder panicked: "+pi.Value, desc)
+					} else if derr == nil {
+						rk := "contiguous"
+						if seg {
+							rk = "segmented"
+						}
+						c.Violation("C12:wrong-digest-accepted:"+rk, id, "Interest whose parameters digest was replaced still decodes ("+rk+" reader)", desc)
+					}
+					c.Count("digest_replacements", 1)
 				}
-				c.Count("digest_replacements", 1)
 			}
 		}
 	}
